@@ -192,9 +192,15 @@ func (w *world) do(op outb.Op, exact bool) {
 		if cl.Open {
 			w.closed = true
 		}
-		// retryable errors accept cl.N bytes (Writev: 0)
+		// retryable errors accept cl.N bytes
 		if !cl.Open && cl.N > 0 {
 			w.accepted += int64(cl.N)
+		}
+		if !cl.Open && countsAgainstBound && (max <= 0 || before.BufBytes+n <= max) {
+			// "a write that fits is always accepted": a transient refusal of the kernel is what the
+			// write cache is for; the caller has no event to wait for
+			w.fail("fitting-write-not-accepted", fmt.Sprintf("%s of %d bytes with at most %d bytes of backlog (max %d) returned %d, %q: the write fits and was not accepted", op.Kind, n, before.BufBytes, max, cl.N, cl.Err))
+			return
 		}
 	}
 }
